@@ -75,6 +75,12 @@ CHECKS["C15"] = dict(
     note="seeded behaviours; aliasing tested with numpy.shares_memory",
     technique="TLA+ frame conditions (TLC) + behaviour replay with byte snapshots and aliasing probes")
 
+CHECKS["C11"] = dict(
+    text="The five means of FVOperators (linear by distance weights, arithmetic and harmonic by width weights, geometric, upwind with boundary-face average on inflow and plain average at u=0) are the reference; for seeded configurations with integer cell widths the real averaging functions are evaluated on positive sixth-power data (so that weighted geometric means are rational), on arbitrary integer data and on data with exact zeros, lifted, and TLC (FVTraceOps) checks the face formulas, betweenness, constants, H<=G<=A, the geometric relation G^(w1+w2)=a^w1 b^w2 and exactness of linearMean on linear fields at face positions. Identical formulas per face in 1D/2D/3D give locality and dimension agreement.",
+    ref="DESIGN.md 5/C11",
+    note="cell widths in {1,2}; bounds and ordering on positive data only (as stated)",
+    technique="TLA+ reference means + TLC trace validation of lifted face values")
+
 NOT_APPLICABLE = {
  "C02": "asymptotic convergence order under refinement: no reals/limits in TLA+, exact lifting does not survive solves on refined grids (DESIGN 8)",
 }
